@@ -682,4 +682,288 @@ theorem inv_reach {n : Nat} {s : St} (h : Reach n s) : Inv s := by
   | init => exact inv_init n
   | step _ hs ih => exact inv_astep ih hs
 
+
+/-! ### uninterrupted runs and API histories stay inside `Reach` -/
+
+theorem reach_runT {n : Nat} {tid : Nat} (acts : List Act) {s s' : St} (h : Reach n s)
+    (hr : runT s tid acts = some s') : Reach n s' := by
+  induction acts generalizing s with
+  | nil => simp only [runT, Option.some.injEq] at hr; subst hr; exact h
+  | cons a r ih =>
+    simp only [runT] at hr
+    cases ha : astep s tid a with
+    | none => simp only [ha] at hr; cases hr
+    | some s1 => simp only [ha] at hr; exact ih (Reach.step h ha) hr
+
+theorem reach_apiStep {n tid : Nat} {op : ApiOp} {s s' : St} (h : Reach n s)
+    (hr : apiStep s tid op = some s') : Reach n s' := by
+  simp only [apiStep] at hr
+  cases h1 : runT s tid (pre s tid op) with
+  | none => simp only [h1] at hr; cases hr
+  | some s1 => simp only [h1] at hr; exact reach_runT _ (reach_runT _ h h1) hr
+
+theorem reach_apiRun {n tid : Nat} (ops : List ApiOp) {s s' : St} (h : Reach n s)
+    (hr : apiRun s tid ops = some s') : Reach n s' := by
+  induction ops generalizing s with
+  | nil => simp only [apiRun, Option.some.injEq] at hr; subst hr; exact h
+  | cons op r ih =>
+    simp only [apiRun] at hr
+    cases ha : apiStep s tid op with
+    | none => simp only [ha] at hr; cases hr
+    | some s1 => simp only [ha] at hr; exact ih (reach_apiStep h ha) hr
+
+theorem reach_runSched {n : Nat} (sched : List (Nat × Act)) {s s' : St} (h : Reach n s)
+    (hr : runSched s sched = some s') : Reach n s' := by
+  induction sched generalizing s with
+  | nil => simp only [runSched, Option.some.injEq] at hr; subst hr; exact h
+  | cons x r ih =>
+    obtain ⟨tid, a⟩ := x
+    simp only [runSched] at hr
+    cases ha : astep s tid a with
+    | none => simp only [ha] at hr; cases hr
+    | some s1 => simp only [ha] at hr; exact ih (Reach.step h ha) hr
+
+/-- consequences of the invariant in the form the property theorems use -/
+theorem Inv.freed_le_one {s : St} (h : Inv s) (b : Nat) : s.freed b ≤ 1 := by
+  by_cases x : b < s.next
+  · have := h.freedOnce b x
+    by_cases y : s.heap b = none <;> simp only [y, if_true, if_false] at this <;> omega
+  · have := (h.fresh b (by omega)).2; omega
+
+
+/-! ### an API call that starts with an idle thread ends with an idle thread -/
+
+theorem astep_pc_other {s s' : St} {tid tid2 : Nat} {a : Act} (hs : astep s tid a = some s') (hne : tid2 ≠ tid) :
+    s'.pc tid2 = s.pc tid2 := by
+  cases a <;> simp only [astep] at hs <;> (repeat' split at hs) <;>
+    first
+    | (cases hs; done)
+    | (cases hs; first | rfl | (simp only [upd_other _ _ _ _ hne]))
+
+/-- every step except `dec` and `readRef` leaves an idle thread idle; `free` and `write` always end idle -/
+def keepsIdle : Act → Bool
+  | .dec _ => false
+  | .readRef _ _ => false
+  | _ => true
+
+theorem astep_idle {s s' : St} {tid : Nat} {a : Act} (hs : astep s tid a = some s') (hk : keepsIdle a = true)
+    (hp : s.pc tid = .idle) : s'.pc tid = .idle := by
+  cases a <;> simp only [keepsIdle] at hk <;> simp only [astep, hp] at hs <;> (repeat' split at hs) <;>
+    first
+    | (cases hs; done)
+    | (cases hs; exact hp)
+    | (cases hk; done)
+
+theorem astep_free_idle {s s' : St} {tid : Nat} (hs : astep s tid .free = some s') : s'.pc tid = .idle := by
+  simp only [astep] at hs
+  (repeat' split at hs) <;> first | (cases hs; done) | (cases hs; simp only [upd_same]) | (cases hs; assumption)
+
+theorem astep_write_idle {s s' : St} {tid : Nat} {v : List Nat} (hs : astep s tid (.write v) = some s') :
+    s'.pc tid = .idle := by
+  simp only [astep] at hs
+  (repeat' split at hs) <;> first | (cases hs; done) | (cases hs; simp only [upd_same]) | (cases hs; assumption)
+
+theorem astep_readRef_pc {s s' : St} {tid t : Nat} {ok : Bool} (hs : astep s tid (.readRef t ok) = some s')
+    (hp : s.pc tid = .idle) : s'.pc tid = .idle ∨ ∃ t b, s'.pc tid = .writing t b := by
+  simp only [astep] at hs
+  (repeat' split at hs) <;>
+    first
+    | (cases hs; done)
+    | (cases hs; left; exact hp)
+    | (cases hs; right; exact ⟨_, _, upd_same _ _ _⟩)
+
+/-- step lists in which every `dec` is directly followed by `free` and no counter is read -/
+def bal : List Act → Bool
+  | [] => true
+  | .dec _ :: .free :: r => bal r
+  | .dec _ :: _ => false
+  | .readRef _ _ :: _ => false
+  | _ :: r => bal r
+
+theorem runT_bal {tid : Nat} (acts : List Act) {s s' : St} (hb : bal acts = true) (hp : s.pc tid = .idle)
+    (hr : runT s tid acts = some s') : s'.pc tid = .idle := by
+  induction acts using bal.induct generalizing s with
+  | case1 => simp only [runT, Option.some.injEq] at hr; subst hr; exact hp
+  | case2 t r ih =>
+    simp only [bal] at hb
+    simp only [runT] at hr
+    cases h1 : astep s tid (.dec t) with
+    | none => simp only [h1] at hr; cases hr
+    | some s1 =>
+      simp only [h1] at hr
+      cases h2 : astep s1 tid .free with
+      | none => simp only [h2] at hr; cases hr
+      | some s2 => simp only [h2] at hr; exact ih hb (astep_free_idle h2) hr
+  | case3 t r hne => simp [bal] at hb
+  | case4 t ok r => simp [bal] at hb
+  | case5 a r h1 h2 h3 ih =>
+    have hk : keepsIdle a = true := by
+      cases a <;> simp_all [keepsIdle]
+    have hb' : bal r = true := by
+      cases a <;> simp_all [bal]
+    simp only [runT] at hr
+    cases h1 : astep s tid a with
+    | none => simp only [h1] at hr; cases hr
+    | some s1 => simp only [h1] at hr; exact ih hb' (astep_idle h1 hk hp) hr
+
+
+theorem bal_append {a b : List Act} (ha : bal a = true) (hb : bal b = true) : bal (a ++ b) = true := by
+  induction a using bal.induct with
+  | case1 => simpa using hb
+  | case2 t r ih => simp only [bal] at ha; simp only [List.cons_append, bal]; exact ih ha
+  | case3 t r hne => simp [bal] at ha
+  | case4 t ok r => simp [bal] at ha
+  | case5 a r h1 h2 h3 ih =>
+    have hr : bal r = true := by cases a <;> simp_all [bal]
+    have := ih hr
+    cases a <;> simp_all [bal]
+
+theorem bal_rel (d : Nat) : bal (rel d) = true := by simp [rel, bal]
+theorem bal_shareAssign (tid d s : Nat) : bal (shareAssign tid d s) = true := by simp [shareAssign, bal]
+theorem bal_cloneAllocFirst (tid d tag : Nat) (v : List Nat) (cap : Nat) : bal (cloneAllocFirst tid d tag v cap) = true := by
+  simp [cloneAllocFirst, bal]
+theorem bal_cloneReleaseFirst (d tag : Nat) (v : List Nat) : bal (cloneReleaseFirst d tag v) = true := by
+  simp [cloneReleaseFirst, bal]
+
+theorem bal_boxAssign (st : St) (tid d s : Nat) : bal (boxAssign st tid d s) = true := by
+  simp only [boxAssign]
+  split
+  · rfl
+  · split
+    · exact bal_shareAssign _ _ _
+    · exact bal_append (bal_rel _) (by simp [bal])
+    · exact bal_rel _
+
+/-- the `pre` phase either reads no counter (and pairs every decrement with its release) or is
+    exactly one counter read, after which a successful read is followed by exactly the write -/
+theorem pre_shape (st : St) (tid : Nat) (op : ApiOp) :
+    bal (pre st tid op) = true ∨
+    (∃ d ok, pre st tid op = [.readRef d ok] ∧ ∀ s1, isWriting s1 tid = true → ∃ v, post s1 tid op = [.write v]) := by
+  cases op <;> simp only [pre]
+  case sNew d bytes => left; exact bal_append (bal_rel _) (by simp [bal])
+  case sLit d bytes => left; exact bal_append (bal_rel _) (by simp [bal])
+  case sCopy d s =>
+    left; split
+    · rfl
+    · apply bal_append (bal_rel _); split <;> simp [bal]
+  case sAssign d s =>
+    left; split
+    · exact bal_shareAssign _ _ _
+    · exact bal_append (bal_rel _) (by simp [bal])
+  case sClear d => right; exact ⟨_, _, rfl, fun s1 h => by simp [post, h]⟩
+  case sAppend d bytes => right; exact ⟨_, _, rfl, fun s1 h => by simp [post, h]⟩
+  case sReserve d n => right; exact ⟨_, _, rfl, fun s1 h => by simp [post, h]⟩
+  case sDel d => left; exact bal_rel _
+  case vCopy d s =>
+    left; split
+    · rfl
+    · apply bal_append (bal_rel _); split <;> simp [bal]
+  case vAssign d s => left; exact bal_boxAssign _ _ _ _
+  case vClear d => left; exact bal_rel _
+  case vSetInt d x => left; exact bal_append (bal_rel _) (by simp [bal])
+  case vSetStr d bytes => right; exact ⟨_, _, rfl, fun s1 h => by simp [post, h]⟩
+  case vAppStr d bytes => right; exact ⟨_, _, rfl, fun s1 h => by simp [post, h]⟩
+  case vPush d x => right; exact ⟨_, _, rfl, fun s1 h => by simp [post, h]⟩
+  case vSwap a b => left; split <;> simp [bal]
+  case xCopy d s =>
+    left; split
+    · rfl
+    · apply bal_append (bal_rel _); split <;> simp [bal]
+  case xAssign d s => left; exact bal_boxAssign _ _ _ _
+  case xClear d => left; exact bal_rel _
+  case xSetStr d bytes => right; exact ⟨_, _, rfl, fun s1 h => by simp [post, h]⟩
+  case xElem d bytes => right; exact ⟨_, _, rfl, fun s1 h => by simp [post, h]⟩
+  case pNew d x => left; simp [bal]
+  case pCopy d s =>
+    left; split
+    · rfl
+    · apply bal_append (bal_rel _); split <;> simp [bal]
+  case pAssign d s =>
+    left; split
+    · exact bal_shareAssign _ _ _
+    · exact bal_rel _
+  case pClear d => left; exact bal_rel _
+  case pSwap a b => left; simp [bal]
+
+/-- without a successful counter read the `post` phase pairs every decrement with its release -/
+theorem post_bal (s1 : St) (tid : Nat) (op : ApiOp) (hw : isWriting s1 tid = false) : bal (post s1 tid op) = true := by
+  cases op <;> simp only [post, hw, Bool.false_eq_true, if_false] <;> try rfl
+  case vSwap a b =>
+    apply bal_append (bal_append (bal_boxAssign _ _ _ _) _) (bal_rel _)
+    split
+    · exact bal_shareAssign _ _ _
+    · exact bal_append (bal_rel _) (by simp [bal])
+    · exact bal_rel _
+  case xElem d bytes =>
+    split
+    · exact bal_cloneAllocFirst _ _ _ _ _
+    · exact bal_cloneReleaseFirst _ _ _
+
+theorem apiStep_idle {s s' : St} {tid : Nat} {op : ApiOp} (hp : s.pc tid = .idle)
+    (hr : apiStep s tid op = some s') : s'.pc tid = .idle := by
+  simp only [apiStep] at hr
+  cases h1 : runT s tid (pre s tid op) with
+  | none => simp only [h1] at hr; cases hr
+  | some s1 =>
+    simp only [h1] at hr
+    rcases pre_shape s tid op with hb | ⟨d, ok, hpre, hpost⟩
+    · have hi := runT_bal _ hb hp h1
+      have hw : isWriting s1 tid = false := by simp [isWriting, hi]
+      exact runT_bal _ (post_bal s1 tid op hw) hi hr
+    · rw [hpre] at h1
+      simp only [runT] at h1
+      cases h2 : astep s tid (.readRef d ok) with
+      | none => simp only [h2] at h1; cases h1
+      | some s2 =>
+        simp only [h2, Option.some.injEq] at h1
+        subst h1
+        rcases astep_readRef_pc h2 hp with hi | ⟨t, b, hwr⟩
+        · have hw : isWriting s2 tid = false := by simp [isWriting, hi]
+          exact runT_bal _ (post_bal s2 tid op hw) hi hr
+        · have hw : isWriting s2 tid = true := by simp [isWriting, hwr]
+          obtain ⟨v, hv⟩ := hpost s2 hw
+          rw [hv] at hr
+          simp only [runT] at hr
+          cases h3 : astep s2 tid (.write v) with
+          | none => simp only [h3] at hr; cases hr
+          | some s3 =>
+            simp only [h3, Option.some.injEq] at hr
+            subst hr
+            exact astep_write_idle h3
+
+theorem runT_pc_other {tid tid2 : Nat} (acts : List Act) {s s' : St} (hr : runT s tid acts = some s')
+    (hne : tid2 ≠ tid) : s'.pc tid2 = s.pc tid2 := by
+  induction acts generalizing s with
+  | nil => simp only [runT, Option.some.injEq] at hr; subst hr; rfl
+  | cons a r ih =>
+    simp only [runT] at hr
+    cases ha : astep s tid a with
+    | none => simp only [ha] at hr; cases hr
+    | some s1 => simp only [ha] at hr; rw [ih hr, astep_pc_other ha hne]
+
+/-- all threads idle: the state between two API calls of a single-threaded history -/
+def Quiet (s : St) : Prop := ∀ tid, s.pc tid = .idle
+
+theorem quiet_apiStep {s s' : St} {tid : Nat} {op : ApiOp} (hq : Quiet s) (hr : apiStep s tid op = some s') :
+    Quiet s' := by
+  intro tid2
+  by_cases e : tid2 = tid
+  · subst e; exact apiStep_idle (hq _) hr
+  · simp only [apiStep] at hr
+    cases h1 : runT s tid (pre s tid op) with
+    | none => simp only [h1] at hr; cases hr
+    | some s1 =>
+      simp only [h1] at hr
+      rw [runT_pc_other _ hr e, runT_pc_other _ h1 e]; exact hq _
+
+theorem quiet_apiRun {tid : Nat} (ops : List ApiOp) {s s' : St} (hq : Quiet s) (hr : apiRun s tid ops = some s') :
+    Quiet s' := by
+  induction ops generalizing s with
+  | nil => simp only [apiRun, Option.some.injEq] at hr; subst hr; exact hq
+  | cons op r ih =>
+    simp only [apiRun] at hr
+    cases ha : apiStep s tid op with
+    | none => simp only [ha] at hr; cases hr
+    | some s1 => simp only [ha] at hr; exact ih (quiet_apiStep hq ha) hr
+
 end Nstd.Rc
